@@ -562,10 +562,10 @@ func (w *tWriter) empty() bool {
 // Closes the storage.Writer.
 func (w *tWriter) close() error {
 	if w.w != nil {
-		if err := w.w.Close(); err != nil {
-			return err
-		}
+		// The handle is spent whatever Close returns.
+		err := w.w.Close()
 		w.w = nil
+		return err
 	}
 	return nil
 }
